@@ -43,12 +43,15 @@ func init() {
 	registry["C13"] = func() *Property {
 		return &Property{
 			ID:          "C13",
-			Explanation: "Width clause only, decided by inference of an inductive loop invariant (engine E9): ansi.Wrap and ansi.DumbWrap are one loop over the matches of ansi.expand; strings are abstracted to an upper bound of their number of visible characters (whole string, or last line for an accumulator that receives line feeds), the state of the loop is the phis of its header, and the strongest inductive invariant inside a template family of linear facts over the counters, the width and the string bounds (n >= 0, n <= w, sums <= w, `m = 0 or sum <= w`, W(s) <= n) is computed Houdini style over all acyclic header-to-header paths, with exact linear reasoning (simplex over the rationals). Decided: (R0) ansi.expand returns the matches of a pattern that consumes exactly one character outside escape sequences per match, so a match is one visible character; (R1) every line ansi.Wrap completes — every element appended to the slice it joins with line feeds — has at most `length` visible characters on every path, for every width >= 1; (R2) the same for ansi.DumbWrap's accumulator at every point where a character or line feed is added. NOT decided: that content, order and styling are preserved, that words are broken only when longer than a line, Pad/Indent/Snip shapes — those are statements about string values.",
+			Explanation: "Width clause only, decided by inference of an inductive loop invariant (engine E9): ansi.Wrap and ansi.DumbWrap are one loop over the matches of ansi.expand; strings are abstracted to an upper bound of their number of visible characters (whole string, or last line for an accumulator that receives line feeds), the state of the loop is the phis of its header, and the strongest inductive invariant inside a template family of linear facts over the counters, the width and the string bounds (n >= 0, n <= w, sums <= w, `m = 0 or sum <= w`, W(s) <= n) is computed Houdini style over all acyclic header-to-header paths, with exact linear reasoning (simplex over the rationals). Decided: (R0) ansi.expand returns the matches of a pattern that consumes exactly one character outside escape sequences per match, so a match is one visible character; (R1) every line ansi.Wrap completes — every element appended to the slice it joins with line feeds — has at most `length` visible characters on every path, for every width >= 1; (R2) the same for ansi.DumbWrap's accumulator at every point where a character or line feed is added; (R3) with lower bounds next to the upper ones (a piece of a match counts towards a lower bound only where the path knows its character is no line feed), every line ansi.Pad completes, and the last line it returns, has at least `length` visible characters and exactly `length` where padding was added; (R4) DumbWrap, Pad and Indent keep every character: each is one loop over the matches of expand(text) in ascending order, and every acyclic path round the loop appends to the one accumulator, at its end, inserted material and the content of the current match exactly once — the whole match (escape sequences included) when the character is no line feed, a line feed when it is; nothing of the text is appended after the loop; (R5) every line feed ansi.Indent emits is directly followed by the prefix, a match that may be a line feed is never copied as it is, and the accumulator enters the loop as the prefix exactly on the includeFirst arm. NOT decided: content, order and break placement of Wrap (it buffers words and drops blanks at breaks by design), that words are broken only when longer than a line, Snip.",
 			Assumptions: []string{"width >= 1 (the property's own precondition)", "regexp semantics: FindAllStringSubmatch returns non-overlapping matches, element 0 the whole match", "a visible character is one match of ansi.expand (escape sequences inside a match are not visible)"},
 			Rules: []Rule{
 				{ID: "C13.R0", Title: "ansi.expand yields one visible character per match", Floor: 2, Run: c13R0},
 				{ID: "C13.R1", Title: "ansi.Wrap never completes a line wider than the width", Floor: 4, Run: func(c *Ctx) { c13Width(c, "Wrap") }},
 				{ID: "C13.R2", Title: "ansi.DumbWrap never completes a line wider than the width", Floor: 3, Run: func(c *Ctx) { c13Width(c, "DumbWrap") }},
+				{ID: "C13.R3", Title: "ansi.Pad makes every line at least the width, exactly the width where it adds padding", Floor: 3, Run: func(c *Ctx) { c13Loop(c, "Pad", "pad") }},
+				{ID: "C13.R4", Title: "DumbWrap, Pad and Indent keep every character, with its escape sequences, in order, and every line break", Floor: 10, Run: c13Content},
+				{ID: "C13.R5", Title: "ansi.Indent puts the prefix after every line feed, and in front of the first line exactly when asked", Floor: 3, Run: c13IndentShape},
 			},
 		}
 	}
@@ -230,12 +233,18 @@ type wloop struct {
 
 // wval: the abstract value of a string on a path.
 type wval struct {
-	pre, suf linForm // bound of the first / last line (equal when reset is false: the whole string)
-	reset    bool    // contains a line feed put there by the code
+	pre, suf  linForm // upper bound of the first / last line (equal when reset is false: the whole string)
+	preLo, lo linForm // lower bound of the first / last line
+	reset     bool    // contains a line feed put there by the code
+	mayNL     bool    // may contain a line feed that is not accounted for (an unknown character): lower bounds restart
+	pad       bool    // contains padding (strings.Repeat)
 }
+
+func wexact(f linForm) wval { return wval{pre: f, suf: f, preLo: f, lo: f} }
 
 type wctx struct {
 	L    *wloop
+	at   *ssa.BasicBlock // where the value being evaluated is put together (for branch facts)
 	lc   *lcPath
 	need []wneed // side conditions: form >= 0 must hold
 }
@@ -316,25 +325,29 @@ func (L *wloop) matchPiece(v ssa.Value) (int64, bool) {
 
 func (w *wctx) val(v ssa.Value, d int) wval {
 	L, lc := w.L, w.lc
-	one := func(k int64) wval { f := linConst(k); return wval{pre: f, suf: f} }
+	one := func(k int64) wval { return wexact(linConst(k)) }
 	if d > 24 {
 		lc.problem("string expression too deep at %s", L.P.Pos(v.Pos()))
 		return one(0)
 	}
-	if k, ok := L.matchPiece(v); ok {
-		switch k {
-		case 1:
+	piece := func(pv ssa.Value, k int64) wval {
+		if k == 1 {
 			return one(0) // the escape sequences in front of the character
-		default:
-			return one(1) // the whole match, or the character itself
 		}
+		// the whole match, or the character itself: one visible character —
+		// unless it is a line feed, which only matters for lower bounds
+		r := one(1)
+		if !L.pieceNotNewline(pv, w.at) {
+			r.lo, r.preLo, r.mayNL = linConst(0), linConst(0), true
+		}
+		return r
+	}
+	if k, ok := L.matchPiece(v); ok {
+		return piece(v, k)
 	}
 	v = lc.at(v)
 	if k, ok := L.matchPiece(v); ok {
-		if k == 1 {
-			return one(0)
-		}
-		return one(1)
+		return piece(v, k)
 	}
 	switch x := v.(type) {
 	case *ssa.Const:
@@ -347,13 +360,18 @@ func (w *wctx) val(v ssa.Value, d int) wval {
 						w.need = append(w.need, wneed{lcGE(L.widthForm(), n), "a line inside a constant"})
 					}
 				}
-				return wval{pre: linConst(visibleCount(s[:i])), suf: linConst(visibleCount(s[j+1:])), reset: true}
+				a, b := linConst(visibleCount(s[:i])), linConst(visibleCount(s[j+1:]))
+				return wval{pre: a, suf: b, preLo: a, lo: b, reset: true}
 			}
 			return one(visibleCount(s))
 		}
 	case *ssa.BinOp:
 		if x.Op == token.ADD {
-			return wcat(w, w.val(x.X, d+1), w.val(x.Y, d+1))
+			old := w.at
+			w.at = x.Block()
+			r := wcat(w, w.val(x.X, d+1), w.val(x.Y, d+1))
+			w.at = old
+			return r
 		}
 	case *ssa.Phi:
 		if x.Block() == L.H {
@@ -371,8 +389,9 @@ func (w *wctx) val(v ssa.Value, d int) wval {
 			if s, ok := constString(x.Call.Args[0]); ok && !strings.Contains(s, "\n") {
 				n := lc.num(x.Call.Args[1])
 				w.need = append(w.need, wneed{n, "the count of strings.Repeat"})
-				f := newLin().add(n, visibleCount(s))
-				return wval{pre: f, suf: f}
+				r := wexact(newLin().add(n, visibleCount(s)))
+				r.pad = true
+				return r
 			}
 		}
 	}
@@ -387,31 +406,94 @@ func (w *wctx) headSym(x ssa.Value) wval {
 	s := "W:" + normSym(x)
 	r.coef[s] = 1
 	lc.unsigned[s] = true
+	lo := newLin()
+	ls := "Wlo:" + normSym(x)
+	lo.coef[ls] = 1
+	lc.unsigned[ls] = true
 	if L.lastKind[x] {
-		// an accumulator with line feeds in it: the symbol bounds its last
+		// an accumulator with line feeds in it: the symbols bound its last
 		// line only, nothing is known about its first
 		p := newLin()
 		ps := "Wfirst:" + normSym(x)
 		p.coef[ps] = 1
 		lc.unsigned[ps] = true
-		return wval{pre: p, suf: r, reset: true}
+		return wval{pre: p, suf: r, preLo: linConst(0), lo: lo, reset: true}
 	}
-	return wval{pre: r, suf: r}
+	return wval{pre: r, suf: r, preLo: lo, lo: lo}
 }
 
 func wcat(w *wctx, a, b wval) wval {
+	var r wval
 	switch {
 	case !a.reset && !b.reset:
 		f := a.suf.add(b.suf, 1)
-		return wval{pre: f, suf: f}
+		r = wval{pre: f, suf: f}
 	case a.reset && !b.reset:
-		return wval{pre: a.pre, suf: a.suf.add(b.suf, 1), reset: true}
+		r = wval{pre: a.pre, suf: a.suf.add(b.suf, 1), reset: true}
 	case !a.reset && b.reset:
-		return wval{pre: a.suf.add(b.pre, 1), suf: b.suf, reset: true}
+		r = wval{pre: a.suf.add(b.pre, 1), suf: b.suf, reset: true}
 	default:
 		w.need = append(w.need, wneed{w.L.widthForm().add(a.suf.add(b.pre, 1), -1), "the line completed inside a concatenation"})
-		return wval{pre: a.pre, suf: b.suf, reset: true}
+		r = wval{pre: a.pre, suf: b.suf, reset: true}
 	}
+	// lower bounds: a line feed inside b (known or possible) restarts the last line
+	switch {
+	case b.reset:
+		r.lo = b.lo
+	case b.mayNL:
+		r.lo = linConst(0)
+	default:
+		r.lo = a.lo.add(b.lo, 1)
+	}
+	switch {
+	case a.reset:
+		r.preLo = a.preLo
+	case a.mayNL:
+		r.preLo = linConst(0)
+	default:
+		r.preLo = a.lo.add(b.preLo, 1)
+	}
+	r.mayNL = a.mayNL || b.mayNL
+	r.pad = a.pad || b.pad
+	return r
+}
+
+// pieceNotNewline: the piece pv of a match is used at block `at`, where the
+// branch facts say that the character of the same match is not a line feed.
+func (L *wloop) pieceNotNewline(pv ssa.Value, at *ssa.BasicBlock) bool {
+	if at == nil {
+		return false
+	}
+	base := func(v ssa.Value) ssa.Value {
+		switch x := v.(type) {
+		case *ssa.UnOp:
+			if ia, ok := x.X.(*ssa.IndexAddr); ok && x.Op == token.MUL {
+				return ia.X
+			}
+		case *ssa.Index:
+			return x.X
+		}
+		return nil
+	}
+	b := base(pv)
+	if b == nil {
+		return false
+	}
+	for _, f := range factsOf(at.Parent()).At(at) {
+		cmp, ok := f.Cmp()
+		if !ok || cmp.Op != token.NEQ {
+			continue
+		}
+		for _, side := range [][2]ssa.Value{{cmp.X, cmp.Y}, {cmp.Y, cmp.X}} {
+			if s, ok := constString(side[1]); !ok || s != "\n" {
+				continue
+			}
+			if k, ok := L.matchPiece(side[0]); ok && k == 2 && base(side[0]) == b {
+				return true
+			}
+		}
+	}
+	return false
 }
 
 // builderOp: in is a method call on the local strings.Builder B.
@@ -437,18 +519,25 @@ func builderOp(in ssa.Instruction) (B *ssa.Alloc, method string, call *ssa.Call)
 
 // written: the abstract value of what a Write* call adds.
 func (w *wctx) written(method string, call *ssa.Call) (wval, bool) {
-	one := func(k int64) wval { f := linConst(k); return wval{pre: f, suf: f} }
+	one := func(k int64) wval { return wexact(linConst(k)) }
 	switch method {
 	case "WriteString":
-		return w.val(call.Call.Args[1], 0), true
+		old := w.at
+		w.at = call.Block()
+		r := w.val(call.Call.Args[1], 0)
+		w.at = old
+		return r, true
 	case "WriteByte", "WriteRune":
 		if k, ok := constInt(w.lc.at(call.Call.Args[1])); ok {
 			if k == '\n' {
-				return wval{pre: linConst(0), suf: linConst(0), reset: true}, true
+				z := linConst(0)
+				return wval{pre: z, suf: z, preLo: z, lo: z, reset: true}, true
 			}
 			return one(1), true
 		}
-		return one(1), true // an unknown character counts as visible
+		u := one(1) // an unknown character counts as visible; it may be a line feed
+		u.lo, u.preLo, u.mayNL = linConst(0), linConst(0), true
+		return u, true
 	}
 	return wval{}, false
 }
@@ -462,8 +551,7 @@ func (w *wctx) builderState(B *ssa.Alloc, upto ssa.Instruction) wval {
 	for bi, b := range blocks {
 		if bi == 0 && b != w.L.H {
 			// the entry path: the builder is empty unless written before the loop
-			f := linConst(0)
-			cur = wval{pre: f, suf: f}
+			cur = wexact(linConst(0))
 		}
 		for _, in := range b.Instrs {
 			if in == upto {
@@ -475,8 +563,7 @@ func (w *wctx) builderState(B *ssa.Alloc, upto ssa.Instruction) wval {
 			}
 			switch m {
 			case "Reset":
-				f := linConst(0)
-				cur = wval{pre: f, suf: f}
+				cur = wexact(linConst(0))
 			case "String", "Len", "Grow", "Cap":
 			default:
 				x, ok := w.written(m, call)
@@ -493,6 +580,10 @@ func (w *wctx) builderState(B *ssa.Alloc, upto ssa.Instruction) wval {
 
 // findLoop: the single natural loop of fn and its state.
 func findWrapLoop(P *Program, fn *ssa.Function) (*wloop, string) {
+	return findWrapLoopOpt(P, fn, true)
+}
+
+func findWrapLoopOpt(P *Program, fn *ssa.Function, needWidth bool) (*wloop, string) {
 	L := &wloop{P: P, fn: fn, expand: map[ssa.Value]bool{}, lastKind: map[ssa.Value]bool{}, builders: map[*ssa.Alloc]bool{}, inLoop: map[*ssa.BasicBlock]bool{}}
 	var headers []*ssa.BasicBlock
 	for _, b := range fn.Blocks {
@@ -520,13 +611,13 @@ func findWrapLoop(P *Program, fn *ssa.Function) (*wloop, string) {
 	}
 	for _, p := range fn.Params {
 		if isInteger(p.Type()) {
-			if L.width != nil {
+			if L.width != nil && needWidth {
 				return nil, "more than one integer parameter: which one is the width cannot be told"
 			}
 			L.width = p
 		}
 	}
-	if L.width == nil {
+	if L.width == nil && needWidth {
 		return nil, "no width parameter"
 	}
 	eachInstr(fn, func(_ *ssa.BasicBlock, _ int, in ssa.Instruction) {
@@ -590,6 +681,7 @@ type wcand struct {
 	guard *ssa.Phi   // "guard = 0 or ..." when non-nil
 	sum   []*ssa.Phi // integer phis summed
 	str   ssa.Value  // W(str) <= sum when non-nil (a string phi or a builder)
+	strLo bool       // with str: the lower bound, visible_lo(str) >= sum
 	lower bool       // sum >= 0 (otherwise sum <= width, or W(str) <= sum)
 }
 
@@ -652,6 +744,7 @@ func (L *wloop) candidates() []wcand {
 	for _, s := range L.strs {
 		for _, n := range L.ints {
 			out = append(out, wcand{desc: "visible(" + strName(s) + ") <= " + phiName(n), str: s, sum: []*ssa.Phi{n}})
+			out = append(out, wcand{desc: "visible(" + strName(s) + ") >= " + phiName(n), str: s, strLo: true, sum: []*ssa.Phi{n}})
 		}
 	}
 	return out
@@ -659,7 +752,7 @@ func (L *wloop) candidates() []wcand {
 
 // claim: the form whose non-negativity is the candidate (without its guard),
 // with integer phis evaluated by ev and string phis by evs.
-func (L *wloop) claim(cd wcand, ev func(*ssa.Phi) linForm, evs func(ssa.Value) linForm) linForm {
+func (L *wloop) claim(cd wcand, ev func(*ssa.Phi) linForm, evs func(ssa.Value, bool) linForm) linForm {
 	sum := newLin()
 	for _, p := range cd.sum {
 		sum = sum.add(ev(p), 1)
@@ -667,8 +760,10 @@ func (L *wloop) claim(cd wcand, ev func(*ssa.Phi) linForm, evs func(ssa.Value) l
 	switch {
 	case cd.lower:
 		return sum
+	case cd.str != nil && cd.strLo:
+		return evs(cd.str, true).add(sum, -1)
 	case cd.str != nil:
-		return sum.add(evs(cd.str), -1)
+		return sum.add(evs(cd.str, false), -1)
 	default:
 		return L.widthForm().add(sum, -1)
 	}
@@ -705,7 +800,12 @@ func (L *wloop) prepare(pf pathFacts, trimLast bool) *wpath {
 func (L *wloop) cases(wp *wpath, alive []wcand, visit func(hyps []linForm)) {
 	lc := wp.w.lc
 	pre := func(p *ssa.Phi) linForm { return lc.num(p) }
-	pres := func(p ssa.Value) linForm { return wp.w.headSym(p).suf }
+	pres := func(p ssa.Value, lo bool) linForm {
+		if lo {
+			return wp.w.headSym(p).lo
+		}
+		return wp.w.headSym(p).suf
+	}
 	base := append([]linForm{}, lc.hyps...)
 	var guards []*ssa.Phi
 	seen := map[*ssa.Phi]bool{}
@@ -782,7 +882,7 @@ func (L *wloop) infer(loopPaths []pathFacts) (alive []wcand, log []string) {
 		lc.assume(lcGE(L.widthForm(), 1))
 		w := &wctx{L: L, lc: lc}
 		ev := func(p *ssa.Phi) linForm { return lc.num(L.backEdgeValue(p, L.entry)) }
-		evs := func(p ssa.Value) linForm {
+		evs := func(p ssa.Value, lo bool) linForm {
 			if B, ok := p.(*ssa.Alloc); ok {
 				// empty unless something is written to it before the loop
 				for _, r := range refs(B) {
@@ -792,7 +892,11 @@ func (L *wloop) infer(loopPaths []pathFacts) (alive []wcand, log []string) {
 				}
 				return linConst(0)
 			}
-			return w.val(L.backEdgeValue(p.(*ssa.Phi), L.entry), 0).suf
+			v := w.val(L.backEdgeValue(p.(*ssa.Phi), L.entry), 0)
+			if lo {
+				return v.lo
+			}
+			return v.suf
 		}
 		var keep []wcand
 		for _, cd := range alive {
@@ -847,11 +951,17 @@ func (L *wloop) infer(loopPaths []pathFacts) (alive []wcand, log []string) {
 			last := wp.w.lc.blocks[len(wp.w.lc.blocks)-1]
 			lc := wp.w.lc
 			post := func(p *ssa.Phi) linForm { return lc.num(L.backEdgeValue(p, last)) }
-			posts := func(p ssa.Value) linForm {
+			posts := func(p ssa.Value, lo bool) linForm {
+				var v wval
 				if B, ok := p.(*ssa.Alloc); ok {
-					return wp.w.builderState(B, nil).suf
+					v = wp.w.builderState(B, nil)
+				} else {
+					v = wp.w.val(L.backEdgeValue(p.(*ssa.Phi), last), 0)
 				}
-				return wp.w.val(L.backEdgeValue(p.(*ssa.Phi), last), 0).suf
+				if lo {
+					return v.lo
+				}
+				return v.suf
 			}
 			// evaluate once (registers symbols and problems)
 			claims := make([]linForm, len(alive))
@@ -933,7 +1043,8 @@ type wsite struct {
 	// for an appended element: the element; for a concatenation: the BinOp
 	elem    ssa.Value
 	cat     *ssa.BinOp
-	write   *ssa.Call // a Write* call on builder
+	ret     *ssa.Return // mode "pad": the returned text's last line
+	write   *ssa.Call   // a Write* call on builder
 	builder *ssa.Alloc
 }
 
@@ -1093,7 +1204,12 @@ func variadicElements(v ssa.Value) ([]ssa.Value, bool) {
 	return out, true
 }
 
-func c13Width(c *Ctx, name string) {
+func c13Width(c *Ctx, name string) { c13Loop(c, name, "upper") }
+
+// c13Loop: mode "upper": no completed line is wider than the width; mode "pad":
+// every completed line is at least as wide as the width, and exactly that wide
+// where padding was added.
+func c13Loop(c *Ctx, name, mode string) {
 	P := c.P
 	fn := P.FuncOpt("servitor/ansi", name)
 	if fn == nil {
@@ -1137,6 +1253,14 @@ func c13Width(c *Ctx, name string) {
 			allPaths = append(allPaths, ps...)
 		}
 	}
+	if mode == "pad" {
+		// the last line: what is returned
+		eachInstr(fn, func(_ *ssa.BasicBlock, _ int, in ssa.Instruction) {
+			if ret, ok := in.(*ssa.Return); ok && len(ret.Results) == 1 {
+				sites = append(sites, wsite{instr: ret, block: ret.Block(), ret: ret})
+			}
+		})
+	}
 	for si, site := range sites {
 		covered := 0
 		okAll := true
@@ -1155,7 +1279,10 @@ func c13Width(c *Ctx, name string) {
 			wp := L.prepare(pf, trim)
 			w, lc := wp.w, wp.w.lc
 			var goals []wneed
-			if site.elem != nil {
+			if site.ret != nil {
+				v := w.val(site.ret.Results[0], 0)
+				goals = append(goals, wneed{v.lo.add(L.widthForm(), -1), "the last line of the result [at least]"})
+			} else if site.elem != nil {
 				v := w.val(site.elem, 0)
 				goals = append(goals, wneed{L.widthForm().add(v.suf, -1), "the appended line"})
 				if v.reset {
@@ -1174,10 +1301,21 @@ func c13Width(c *Ctx, name string) {
 				} else {
 					a, b = w.val(site.cat.X, 0), w.val(site.cat.Y, 0)
 				}
-				if b.reset {
+				switch {
+				case mode == "pad" && b.reset:
+					goals = append(goals, wneed{a.lo.add(b.preLo, 1).add(L.widthForm(), -1), "the line completed here [at least]"})
+					if b.pad {
+						goals = append(goals, wneed{L.widthForm().add(a.suf.add(b.pre, 1), -1), "the padded line completed here"})
+					}
+				case mode == "pad" && b.pad:
+					goals = append(goals, wneed{a.lo.add(b.lo, 1).add(L.widthForm(), -1), "the padded last line [at least]"})
+					goals = append(goals, wneed{L.widthForm().add(a.suf.add(b.suf, 1), -1), "the padded last line"})
+				case mode == "pad":
+					// a line being extended: nothing is promised yet
+				case b.reset:
 					goals = append(goals, wneed{L.widthForm().add(a.suf.add(b.pre, 1), -1), "the line completed here"})
 					goals = append(goals, wneed{L.widthForm().add(b.suf, -1), "the line begun here"})
-				} else {
+				default:
 					goals = append(goals, wneed{L.widthForm().add(a.suf.add(b.suf, 1), -1), "the line extended here"})
 				}
 			}
@@ -1192,7 +1330,11 @@ func c13Width(c *Ctx, name string) {
 				for _, g := range goals {
 					if okAll && !lpImplies(hyps, g.g, lc.unsigned) {
 						okAll = false
-						whyNot = fmt.Sprintf("%s is not known to have at most `%s` visible characters on the path through lines %s (what is known at the loop head: %s)", g.what, L.width.Name(), pathLines(P, pf), strings.Join(inv, "; "))
+						rel := "at most"
+						if strings.HasSuffix(g.what, " [at least]") {
+							rel = "at least"
+						}
+						whyNot = fmt.Sprintf("%s is not known to have %s `%s` visible characters on the path through lines %s (what is known at the loop head: %s)", strings.TrimSuffix(g.what, " [at least]"), rel, L.width.Name(), pathLines(P, pf), strings.Join(inv, "; "))
 					}
 				}
 			})
@@ -1204,6 +1346,436 @@ func c13Width(c *Ctx, name string) {
 		if covered == 0 && okAll {
 			okAll, whyNot = false, "the point is on no analysed path (it lies before the loop)"
 		}
-		c.check(okAll, fmt.Sprintf("%s/line#%d", fname, si), P.InstrPos(site.instr), fname, fmt.Sprintf("within the width on all %d paths through it", covered), whyNot)
+		okText := fmt.Sprintf("within the width on all %d paths through it", covered)
+		if mode == "pad" {
+			okText = fmt.Sprintf("a completed line is at least the width, exactly the width where padding was added, on all %d paths through it", covered)
+		}
+		c.check(okAll, fmt.Sprintf("%s/line#%d", fname, si), P.InstrPos(site.instr), fname, okText, whyNot)
 	}
+}
+
+// ---------------------------------------------------------------- R4, R5
+//
+// Content of the three simple layout loops (DumbWrap, Pad, Indent): every trip
+// round the loop appends to the one accumulator, in order, any amount of
+// inserted material (constants, padding, the prefix) and the content of the
+// current match exactly once — its whole text match[0] when the character is
+// not a line feed, a line feed when it is. Together with "the loop visits the
+// matches of expand(text) in ascending order" and "the accumulator only grows at
+// its end" this is: every character is kept, with its escape sequences, in the
+// original order, and every line break is kept.
+
+type contentLoop struct {
+	L   *wloop
+	acc ssa.Value // the accumulator: a string phi of the header, or a builder
+}
+
+func findContentLoop(P *Program, fn *ssa.Function) (*contentLoop, string) {
+	L, why := findWrapLoopAnyParams(P, fn)
+	if L == nil {
+		return nil, why
+	}
+	// the accumulator: what the returns hand out
+	var acc ssa.Value
+	bad := ""
+	seen := map[ssa.Value]bool{}
+	var walk func(v ssa.Value)
+	walk = func(v ssa.Value) {
+		if seen[v] || bad != "" {
+			return
+		}
+		seen[v] = true
+		switch x := v.(type) {
+		case *ssa.Phi:
+			if x.Block() == L.H {
+				if acc != nil && acc != v {
+					bad = "more than one accumulator"
+				}
+				acc = v
+				return
+			}
+			for _, e := range x.Edges {
+				walk(e)
+			}
+		case *ssa.BinOp:
+			if x.Op == token.ADD {
+				walk(x.X)
+				return
+			}
+			bad = "unexpected string operation at " + P.InstrPos(x)
+		case *ssa.Const:
+		case *ssa.Call:
+			if B, m, _ := builderOp(x); B != nil && m == "String" && L.builders[B] {
+				if acc != nil && acc != ssa.Value(B) {
+					bad = "more than one accumulator"
+				}
+				acc = B
+				return
+			}
+			bad = "the result comes from a call at " + P.InstrPos(x)
+		default:
+			bad = "the result is built from " + v.String()
+		}
+	}
+	eachInstr(fn, func(_ *ssa.BasicBlock, _ int, in ssa.Instruction) {
+		if ret, ok := in.(*ssa.Return); ok && len(ret.Results) == 1 {
+			walk(ret.Results[0])
+		}
+	})
+	if bad != "" {
+		return nil, bad
+	}
+	if acc == nil {
+		return nil, "no accumulator carried round the loop"
+	}
+	return &contentLoop{L: L, acc: acc}, ""
+}
+
+// findWrapLoopAnyParams: as findWrapLoop, without the demand for exactly one
+// integer parameter (Indent has none).
+func findWrapLoopAnyParams(P *Program, fn *ssa.Function) (*wloop, string) {
+	L, why := findWrapLoop(P, fn)
+	if L != nil || !(strings.Contains(why, "width parameter") || strings.Contains(why, "integer parameter")) {
+		return L, why
+	}
+	return findWrapLoopOpt(P, fn, false)
+}
+
+// chunkLeaves: what one path appends to the accumulator, as leaves in order.
+func (cl *contentLoop) chunkLeaves(lc *lcPath, last *ssa.BasicBlock) (out []ssa.Value, ok bool, why string) {
+	L := cl.L
+	var flat func(v ssa.Value, d int) []ssa.Value
+	flat = func(v ssa.Value, d int) []ssa.Value {
+		if _, _, isPiece := pieceIndex(L, v); isPiece {
+			return []ssa.Value{v}
+		}
+		v = lc.at(v)
+		if b, isAdd := v.(*ssa.BinOp); isAdd && b.Op == token.ADD && d < 64 {
+			return append(flat(b.X, d+1), flat(b.Y, d+1)...)
+		}
+		return []ssa.Value{v}
+	}
+	switch acc := cl.acc.(type) {
+	case *ssa.Phi:
+		var edge ssa.Value
+		if last == nil {
+			return nil, false, "no back edge"
+		}
+		edge = L.backEdgeValue(acc, last)
+		ls := flat(edge, 0)
+		if len(ls) == 0 || ls[0] != ssa.Value(acc) {
+			return nil, false, "the accumulator is not extended at its end (what was collected so far is dropped or moved)"
+		}
+		for _, l := range ls[1:] {
+			if l == ssa.Value(acc) {
+				return nil, false, "the accumulator is appended to itself"
+			}
+		}
+		return ls[1:], true, ""
+	case *ssa.Alloc:
+		for _, b := range lc.blocks {
+			for _, in := range b.Instrs {
+				B, m, call := builderOp(in)
+				if B != acc {
+					continue
+				}
+				switch m {
+				case "WriteString":
+					out = append(out, flat(call.Call.Args[1], 0)...)
+				case "WriteByte", "WriteRune":
+					out = append(out, call.Call.Args[1])
+				case "String", "Len", "Grow", "Cap":
+				default:
+					return nil, false, "builder operation " + m + " at " + L.P.InstrPos(in)
+				}
+			}
+		}
+		return out, true, ""
+	}
+	return nil, false, "unknown accumulator"
+}
+
+// pieceIndex: v is element k of the match at index idx of an expand result.
+func pieceIndex(L *wloop, v ssa.Value) (k int64, idx ssa.Value, ok bool) {
+	k, ok = L.matchPiece(v)
+	if !ok {
+		return 0, nil, false
+	}
+	var base ssa.Value
+	switch x := v.(type) {
+	case *ssa.UnOp:
+		base = x.X.(*ssa.IndexAddr).X
+	case *ssa.Index:
+		base = x.X
+	}
+	switch b := base.(type) {
+	case *ssa.UnOp:
+		if ia, isIA := b.X.(*ssa.IndexAddr); isIA {
+			return k, ia.Index, true
+		}
+	case *ssa.Index:
+		return k, b.Index, true
+	}
+	return k, nil, true
+}
+
+// loopIndex: the value that indexes the matches in ascending order: phi+1 of a
+// range loop, or a header phi that starts at 0 and grows by 1 on every back edge.
+func (L *wloop) isLoopIndex(idx ssa.Value) bool {
+	if bo, ok := idx.(*ssa.BinOp); ok && bo.Op == token.ADD {
+		if ph, ok := bo.X.(*ssa.Phi); ok && ph.Comment == "rangeindex" && ph.Block() == L.H {
+			k, isC := constInt(bo.Y)
+			return isC && k == 1
+		}
+	}
+	ph, ok := idx.(*ssa.Phi)
+	if !ok || ph.Block() != L.H {
+		return false
+	}
+	for i, p := range L.H.Preds {
+		e := ph.Edges[i]
+		if p == L.entry {
+			if k, isC := constInt(e); !isC || k != 0 {
+				return false
+			}
+			continue
+		}
+		bo, ok := e.(*ssa.BinOp)
+		if !ok || bo.Op != token.ADD || bo.X != ssa.Value(ph) {
+			return false
+		}
+		if k, isC := constInt(bo.Y); !isC || k != 1 {
+			return false
+		}
+	}
+	return true
+}
+
+func c13Content(c *Ctx) {
+	P := c.P
+	for _, name := range []string{"DumbWrap", "Pad", "Indent"} {
+		fn := P.FuncOpt("servitor/ansi", name)
+		if fn == nil {
+			c.bad("servitor/ansi."+name, "ansi", "servitor/ansi", "ansi."+name+" not found")
+			continue
+		}
+		fname := FuncName(fn)
+		pos := P.Pos(fn.Pos())
+		cl, why := findContentLoop(P, fn)
+		if !c.check(cl != nil, fname+"/content-loop", pos, fname, "one loop over the matches of expand(text) appending to one accumulator", "the shape of "+name+" is not one the content analysis follows ("+why+"): that every character is kept in order cannot be established") {
+			continue
+		}
+		L := cl.L
+		// the matches are those of the text parameter itself
+		okText := false
+		for call := range L.expand {
+			if cc, ok := call.(*ssa.Call); ok && unwrapLoad(cc.Call.Args[0]) == ssa.Value(fn.Params[0]) {
+				okText = true
+			}
+		}
+		c.check(okText && len(L.expand) == 1, fname+"/whole-text", pos, fname, "walks the matches of its own text", name+" does not walk ansi.expand of its own text parameter (and only that)")
+		loopPaths, complete := enumeratePathsFrom(fn, L.H, L.H, 4096)
+		if !c.check(complete && len(loopPaths) > 0, fname+"/content-paths", pos, fname, fmt.Sprintf("%d acyclic paths round the loop", len(loopPaths)), "the paths round the loop could not be enumerated") {
+			continue
+		}
+		for pi, pf := range loopPaths {
+			blocks := pf.blocks[:len(pf.blocks)-1]
+			lc := newLcPath(P, fn, pathFacts{blocks: blocks, facts: pf.facts})
+			last := blocks[len(blocks)-1]
+			ls, ok, whyNot := cl.chunkLeaves(lc, last)
+			where := "path through lines " + pathLines(P, pf)
+			if !ok {
+				c.bad(fmt.Sprintf("%s/content#%d", fname, pi), pos, fname, name+": "+whyNot+" ("+where+")")
+				continue
+			}
+			// what the path knows about the current character
+			isNL, known := false, false
+			for _, f := range pf.facts {
+				cmp, isCmp := f.Cmp()
+				if !isCmp || (cmp.Op != token.EQL && cmp.Op != token.NEQ) {
+					continue
+				}
+				for _, side := range [][2]ssa.Value{{cmp.X, cmp.Y}, {cmp.Y, cmp.X}} {
+					if s, isS := constString(side[1]); !isS || s != "\n" {
+						continue
+					}
+					if k, idx, isP := pieceIndex(L, side[0]); isP && k == 2 && idx != nil && L.isLoopIndex(idx) {
+						known, isNL = true, cmp.Op == token.EQL
+					}
+				}
+			}
+			full, newlines, foreign := 0, 0, ""
+			for _, l := range ls {
+				if k, idx, isP := pieceIndex(L, l); isP {
+					switch {
+					case idx == nil || !L.isLoopIndex(idx):
+						foreign = "a piece of another match than the current one is appended"
+					case k == 0:
+						full++
+					case k == 2 && known && isNL:
+						newlines++ // the character itself, known to be the line feed
+					default:
+						foreign = fmt.Sprintf("element %d of the match is appended instead of the whole match: its escape sequences are dropped or torn apart", k)
+					}
+					continue
+				}
+				if s, isS := constString(l); isS {
+					newlines += strings.Count(s, "\n")
+					continue
+				}
+				if k, isC := constInt(l); isC {
+					if k == '\n' {
+						newlines++
+					}
+					continue
+				}
+			}
+			okPath, reason := true, ""
+			switch {
+			case foreign != "":
+				okPath, reason = false, foreign
+			case known && isNL:
+				if full != 0 || newlines < 1 {
+					okPath, reason = false, fmt.Sprintf("on the path where the character is a line feed, %d line feeds and %d whole matches are appended (the line break must be kept, once)", newlines, full)
+				}
+			default:
+				if full != 1 {
+					okPath, reason = false, fmt.Sprintf("the current match is appended %d times where exactly once is needed to keep every character", full)
+				}
+			}
+			c.check(okPath, fmt.Sprintf("%s/content#%d", fname, pi), pos, fname, "appends the content of the current match exactly once ("+where+")", name+": "+reason+" ("+where+")")
+		}
+		// after the loop nothing of the text may be appended any more
+		for _, b := range fn.Blocks {
+			if len(b.Instrs) == 0 {
+				continue
+			}
+			if _, isRet := b.Instrs[len(b.Instrs)-1].(*ssa.Return); !isRet {
+				continue
+			}
+			ps, _ := enumeratePathsFrom(fn, L.H, b, 1024)
+			for _, pf := range ps {
+				for _, blk := range pf.blocks[1:] {
+					for _, in := range blk.Instrs {
+						for _, op := range in.Operands(nil) {
+							if op == nil || *op == nil {
+								continue
+							}
+							if _, _, isP := pieceIndex(L, *op); isP {
+								if bo, isAdd := in.(*ssa.BinOp); isAdd && bo.Op == token.ADD {
+									c.bad(fname+"/content-after-loop", P.InstrPos(in), fname, name+" appends a piece of a match after the loop")
+								}
+							}
+						}
+					}
+				}
+			}
+		}
+	}
+}
+
+// c13IndentShape: every line feed Indent emits is followed by the prefix, and
+// the first line gets it exactly when includeFirst is set.
+func c13IndentShape(c *Ctx) {
+	P := c.P
+	fn := P.FuncOpt("servitor/ansi", "Indent")
+	if fn == nil || len(fn.Params) != 3 {
+		c.bad("servitor/ansi.Indent", "ansi", "servitor/ansi", "ansi.Indent(text, prefix, includeFirst) not found")
+		return
+	}
+	fname := FuncName(fn)
+	pos := P.Pos(fn.Pos())
+	prefix, includeFirst := ssa.Value(fn.Params[1]), ssa.Value(fn.Params[2])
+	cl, why := findContentLoop(P, fn)
+	if !c.check(cl != nil, fname+"/shape-loop", pos, fname, "one loop, one accumulator", "the shape of Indent is not followed ("+why+")") {
+		return
+	}
+	L := cl.L
+	loopPaths, _ := enumeratePathsFrom(fn, L.H, L.H, 4096)
+	for pi, pf := range loopPaths {
+		blocks := pf.blocks[:len(pf.blocks)-1]
+		lc := newLcPath(P, fn, pathFacts{blocks: blocks, facts: pf.facts})
+		ls, ok, whyNot := cl.chunkLeaves(lc, blocks[len(blocks)-1])
+		where := "path through lines " + pathLines(P, pf)
+		if !ok {
+			c.bad(fmt.Sprintf("%s/prefix-after-line-feed#%d", fname, pi), pos, fname, whyNot+" ("+where+")")
+			continue
+		}
+		okPath, reason := true, ""
+		for i, l := range ls {
+			s, isS := constString(l)
+			if !isS || !strings.Contains(s, "\n") {
+				// a whole match must be known not to be a line feed, or it would start a line without prefix
+				if k, _, isP := pieceIndex(L, l); isP && k == 0 {
+					known := false
+					for _, f := range pf.facts {
+						if cmp, isCmp := f.Cmp(); isCmp && cmp.Op == token.NEQ {
+							for _, side := range [][2]ssa.Value{{cmp.X, cmp.Y}, {cmp.Y, cmp.X}} {
+								if cs, isC := constString(side[1]); isC && cs == "\n" {
+									if k2, _, isP2 := pieceIndex(L, side[0]); isP2 && k2 == 2 {
+										known = true
+									}
+								}
+							}
+						}
+					}
+					if !known {
+						okPath, reason = false, "a match that may be a line feed is copied as it is: the line it starts gets no prefix"
+					}
+				}
+				continue
+			}
+			if !strings.HasSuffix(s, "\n") || strings.Count(s, "\n") != 1 || i+1 >= len(ls) || unwrapLoad(ls[i+1]) != prefix {
+				okPath, reason = false, "a line feed is emitted that is not directly followed by the prefix"
+			}
+		}
+		c.check(okPath, fmt.Sprintf("%s/prefix-after-line-feed#%d", fname, pi), pos, fname, "every line feed is followed by the prefix ("+where+")", "Indent: "+reason+" ("+where+")")
+	}
+	// the first line: the accumulator enters the loop as prefix exactly when includeFirst holds
+	okFirst, whyFirst := false, "the accumulator does not enter the loop as `prefix` under includeFirst and empty otherwise"
+	if ph, isPhi := cl.acc.(*ssa.Phi); isPhi {
+		entry := L.backEdgeValue(ph, L.entry)
+		if sel, isSel := entry.(*ssa.Phi); isSel && len(sel.Edges) == 2 {
+			var withP, withE *ssa.BasicBlock
+			for i, e := range sel.Edges {
+				if unwrapLoad(e) == prefix {
+					withP = sel.Block().Preds[i]
+				} else if s, isS := constString(e); isS && s == "" {
+					withE = sel.Block().Preds[i]
+				}
+			}
+			if withP != nil && withE != nil {
+				// withP is the block on the true edge of `if includeFirst`
+				for _, b := range fn.Blocks {
+					if iff, isIf := b.Instrs[len(b.Instrs)-1].(*ssa.If); isIf && unwrapLoad(iff.Cond) == includeFirst {
+						if b.Succs[0] == withP && (b == withE || b.Succs[1] == withE || b.Succs[1] == sel.Block()) {
+							okFirst = true
+						}
+					}
+				}
+			}
+		}
+	}
+	if B, isB := cl.acc.(*ssa.Alloc); isB {
+		// a builder: exactly one write before the loop, of the prefix, in the arm taken when includeFirst holds
+		n := 0
+		for _, r := range refs(B) {
+			_, m, call := builderOp(r)
+			if m == "" || m == "String" || m == "Len" || m == "Grow" || L.inLoop[r.Block()] {
+				continue
+			}
+			n++
+			blk := r.Block()
+			if m == "WriteString" && unwrapLoad(call.Call.Args[1]) == prefix && len(blk.Preds) == 1 {
+				pred := blk.Preds[0]
+				if iff, isIf := pred.Instrs[len(pred.Instrs)-1].(*ssa.If); isIf && unwrapLoad(iff.Cond) == includeFirst && pred.Succs[0] == blk && pred.Succs[1] != blk {
+					okFirst = true
+				}
+			}
+		}
+		if n != 1 {
+			okFirst = false
+		}
+	}
+	c.check(okFirst, fname+"/first-line", pos, fname, "the first line gets the prefix exactly when includeFirst is set", "Indent: "+whyFirst)
 }
